@@ -99,6 +99,9 @@ var _ = encode.U16{}
 
 // vSkeleton returns a concrete, strictly ascending key list chosen for its shape.
 func vSkeleton(id int) []string {
+	if id >= 100 {
+		return vSweep(5 + 7*(id-100))
+	}
 	switch id {
 	case 0: // the README example
 		return []string{"abc", "abcd", "abd", "abde", "bc", "bcd", "bcde", "cde"}
@@ -234,4 +237,56 @@ func vConcreteValues(c *vT, runs int) {
 			c.i8[i] = int8(val(i)) - 40
 		}
 	}
+}
+
+// vSweep: the first n keys (then sorted, de-duplicated) of a fixed pseudo-random list over
+// a 14-letter alphabet with bytes 0x00, 0x0f, 0x10, 0x7f, 0x80, 0xf0, 0xff and 'a'..'g'.
+// Key lengths 0..5, so keys are often prefixes of other keys; with growing n the shapes
+// pass through 17-bit-only tries, a 257-bit root (> 10 first bytes), nested 257-bit nodes
+// and short-node tables, and the bitmaps take many different alignments.
+func vSweep(n int) []string {
+	alpha := []byte{0x00, 0x0f, 0x10, 'a', 'b', 'c', 'd', 'e', 'f', 'g', 0x7f, 0x80, 0xf0, 0xff}
+	x := uint32(12345)
+	next := func() uint32 {
+		x = x*1664525 + 1013904223
+		return x >> 8
+	}
+	var ks []string
+	for i := 0; i < n; i++ {
+		l := int(next() % 6)
+		if l > 0 && next()%3 == 0 {
+			l = 1 + int(next()%2)
+		}
+		b := make([]byte, l)
+		for j := range b {
+			b[j] = alpha[next()%uint32(len(alpha))]
+		}
+		ks = append(ks, string(b))
+	}
+	return vUniqSorted(ks)
+}
+
+func vUniqSorted(ks []string) []string {
+	// simple merge sort (concrete; insertion sort is too slow in the engine for hundreds of keys)
+	if len(ks) > 1 {
+		mid := len(ks) / 2
+		a := vUniqSorted(append([]string{}, ks[:mid]...))
+		b := vUniqSorted(append([]string{}, ks[mid:]...))
+		ks = ks[:0]
+		i, j := 0, 0
+		for i < len(a) || j < len(b) {
+			var nx string
+			if j >= len(b) || (i < len(a) && a[i] <= b[j]) {
+				nx = a[i]
+				i++
+			} else {
+				nx = b[j]
+				j++
+			}
+			if len(ks) == 0 || ks[len(ks)-1] != nx {
+				ks = append(ks, nx)
+			}
+		}
+	}
+	return ks
 }
